@@ -21,7 +21,10 @@ META = {
             'from the tree without wrappers; (reprint) lookup_casstype(T.cass_parameterized_type(full=True)) has the same CQL '
             'name and codec as T; (registry) built-in class names still resolve to the built-in classes afterwards; '
             '(cql) python_to_cqltype(cqltype_to_python(s)) == s modulo blanks for the CQL spelling s (with and without blanks '
-            'after commas); (strip) strip_frozen(s) equals the tree printed without its frozen nodes; (redefinition) for every '
+            'after commas); (strip) strip_frozen(s) equals the tree printed without its frozen nodes; both clauses also for CQL-only '
+            'trees: user type names with apostrophe, backslash, double quote, blank, and every ordered pair and triple of 8 user type '
+            'names (mixed case, blank, apostrophe, backslash, double quote, non-ASCII, leading digit, plain) side by side in one type '
+            'string as map keys/values, tuple members and inside nested frozen collections; (redefinition) for every '
             'ordered pair of 13 field types the descriptor of a user type is parsed after the descriptor of the same type name with '
             'the other field type (incl. a nested user type that was redefined): the second parse must describe the second definition.',
     'note': 'The expected CQL name follows the driver\'s documented conventions (tuples and UDTs are shown frozen, UDT names '
@@ -376,6 +379,30 @@ def clause_cql(part, reg, t, case):
         _clause_cql(part, reg, f, case)
 
 
+def cql_string_fails(C, t, sep):
+    """does the CQL spelling of t fail the cql or the strip clause?"""
+    s = V.cql_name(t, sep=sep)
+    try:
+        if squeeze(C.python_to_cqltype(C.cqltype_to_python(s))) != squeeze(s):
+            return True
+        return squeeze(C.strip_frozen(s)) != squeeze(V.cql_name(t, sep=sep, keep_frozen=False))
+    except Exception:
+        return True
+
+
+def cql_blame(C, t, sep):
+    """Fingerprint component for a tree whose CQL spelling failed: the peculiarity of a user type name that fails on
+    its own as frozen<name>; when every name is read correctly alone and the tree spells two or more quoted names, it
+    is their coexistence in one string; otherwise the most peculiar name of the tree (as before)."""
+    udts = list(dict.fromkeys(x for x in V.walk(t) if x[0] == 'udt'))
+    for u in udts:
+        if cql_string_fails(C, ('frozen', u), sep):
+            return name_feature(u)
+    if sum(1 for x in V.walk(t) if x[0] == 'udt' and V.cql_ident(x[2]) != x[2]) >= 2:
+        return 'several-quoted-names'
+    return name_feature(t)
+
+
 def _clause_cql(part, reg, t, case):
     C = reg.C
     for sep in (', ', ','):
@@ -384,14 +411,14 @@ def _clause_cql(part, reg, t, case):
         try:
             back = C.python_to_cqltype(C.cqltype_to_python(s))
         except Exception as e:
-            part.violation('C28/cql-string/%s/%s' % (name_feature(t), type(e).__name__),
+            part.violation('C28/cql-string/%s/%s' % (cql_blame(C, t, sep), type(e).__name__),
                            'python_to_cqltype(cqltype_to_python(%r)) raised %r' % (s, e), case)
-            part.outcome(('cql', 'raises', name_feature(t)))
+            part.outcome(('cql', 'raises', cql_blame(C, t, sep)))
             continue
         if squeeze(back) != squeeze(s):
-            part.violation('C28/cql-string/%s/differs' % name_feature(t),
+            part.violation('C28/cql-string/%s/differs' % cql_blame(C, t, sep),
                            'python_to_cqltype(cqltype_to_python(%r)) = %r' % (s, back), case)
-            part.outcome(('cql', 'differs', name_feature(t)))
+            part.outcome(('cql', 'differs', cql_blame(C, t, sep)))
             continue                    # strip_frozen is built on the same two functions
         else:
             part.outcome(('cql', 'ok'))
@@ -400,13 +427,14 @@ def _clause_cql(part, reg, t, case):
         try:
             got = C.strip_frozen(s)
         except Exception as e:
-            part.violation('C28/strip-frozen/%s/%s' % (name_feature(t), type(e).__name__),
+            part.violation('C28/strip-frozen/%s/%s' % (cql_blame(C, t, sep), type(e).__name__),
                            'strip_frozen(%r) raised %r' % (s, e), case)
+            part.outcome(('strip', 'raises', cql_blame(C, t, sep)))
             continue
         if squeeze(got) != squeeze(want):
-            part.violation('C28/strip-frozen/%s/differs' % name_feature(t),
+            part.violation('C28/strip-frozen/%s/differs' % cql_blame(C, t, sep),
                            'strip_frozen(%r) = %r, expected %r' % (s, got, want), case)
-            part.outcome(('strip', 'differs', name_feature(t)))
+            part.outcome(('strip', 'differs', cql_blame(C, t, sep)))
         else:
             part.outcome(('strip', 'ok', 'had-frozen' if 'frozen' in s else 'no-frozen'))
 
@@ -484,8 +512,41 @@ def cql_only_trees():
     return out
 
 
+# user type names for the trees that spell two or three user types in one CQL string: mixed case, blank, apostrophe,
+# backslash, double quote (doubled when quoted), non-ASCII, leading digit (all must be written "quoted") and one plain name
+SIDE_BY_SIDE_NAMES = ('Addr', 'Phone Number', "it's", 'a\\b', 'say "hi"', 'é', '1st', 'plain')
+
+
+def several_names_trees():
+    """Every ordered pair (incl. twice the same) and every ordered triple of SIDE_BY_SIDE_NAMES as user types side by side
+    in a map, a tuple, and nested collections, frozen as Cassandra spells them (clause_cql also tries the spelling with every
+    nested collection frozen)."""
+    import itertools
+    I = ('int',)
+    U = dict((n, G.udt(n, (('a', I),))) for n in SIDE_BY_SIDE_NAMES)
+
+    def F(x):
+        return ('frozen', x)
+    out = []
+    for a, b in itertools.product(SIDE_BY_SIDE_NAMES, repeat=2):
+        A, B = U[a], U[b]
+        out += [('map', F(A), F(B)),
+                ('tuple', F(A), F(B)),
+                ('tuple', A, I, B),
+                ('map', F(A), F(('list', F(B)))),
+                ('list', F(('map', F(A), F(B)))),
+                ('map', F(('set', F(A))), ('list', F(B)))]
+    for a, b, c in itertools.product(SIDE_BY_SIDE_NAMES, repeat=3):
+        A, B, C_ = U[a], U[b], U[c]
+        out += [('tuple', F(A), F(B), F(C_)),
+                ('map', F(A), F(('tuple', F(B), F(C_)))),
+                ('map', F(('tuple', F(A), F(B))), F(C_)),
+                ('list', F(('tuple', F(A), I, F(('map', F(B), F(('set', F(C_)))))))),]
+    return out
+
+
 def run_chunk(args):
-    trees, cql_only = args
+    trees, cql_only, redefinitions = args
     import logging
     logging.disable(logging.CRITICAL)
     part = Part()
@@ -494,9 +555,10 @@ def run_chunk(args):
         check_tree(part, reg, t, idx)
     for t in cql_only:
         part.count('trees')
+        part.count('cql_only_trees')
         clause_cql(part, reg, t, {'type': t, 'cql_only': True})
         part.mark_nontrivial(hash(t))
-    if cql_only:
+    if redefinitions:
         for t1, t2 in redefinition_pairs():
             check_redefinition(part, reg, t1, t2)
     return part
@@ -509,14 +571,19 @@ def run(ctx):
     levels = G.descriptor_type_trees(depth)
     trees = ctx.rotate([t for lvl in levels for t in lvl])
     n = 4 if ctx.quick else ctx.nproc * 4
-    chunks = [(trees[i::n], cql_only_trees() if i == 0 else []) for i in range(n)]
-    for part in ctx.pmap(run_chunk, [c for c in chunks if c[0] or c[1]]):
+    cql_only = list(dict.fromkeys(cql_only_trees() + several_names_trees()))
+    n_cql_only = len(cql_only)
+    cql_only = ctx.rotate(cql_only)
+    chunks = [(trees[i::n], cql_only[i::n], i == 0) for i in range(n)]
+    for part in ctx.pmap(run_chunk, [c for c in chunks if c[0] or c[1] or c[2]]):
         ctx.merge(part)
     ctx.cov['type_trees_per_level'] = [len(l) for l in levels]
-    ctx.cov['rule'] = ('all type trees of depth <= %d of the grid (per level %s) + %d CQL-only trees; per tree: 2 descriptor spellings '
+    ctx.cov['rule'] = ('all type trees of depth <= %d of the grid (per level %s) + %d CQL-only trees (single quoted names, nested frozen, '
+                       'and every ordered pair / triple of %d user type names side by side in 6 / 4 map, tuple and nested shapes); '
+                       'per tree: 2 descriptor spellings '
                        'parsed, CQL name, codec comparison on up to 6 values x 2 protocol versions, reprint round trip, registry check, '
                        '2 CQL spellings through cqltype_to_python/python_to_cqltype and strip_frozen; non-trivial = distinct tree '
-                       'that is not a bare scalar' % (depth, [len(l) for l in levels], len(cql_only_trees())))
+                       'that is not a bare scalar' % (depth, [len(l) for l in levels], n_cql_only, len(SIDE_BY_SIDE_NAMES)))
     ctx.cov['exhaustive'] = True
     ctx.assume('varchar has no marshal class of its own in Cassandra: its descriptor is UTF8Type and reads back as text')
     ctx.assume('the CQL name of a type containing reversed<> is not asserted (only that it is stable under reprinting)')
